@@ -282,6 +282,13 @@ def check_history(c, val, procs, outs):
     for pi, (p, r) in enumerate(zip(procs, outs)):
         total, kill, _, _, res = p
         want_start = latest + 1 if (res and latest >= 0) else 0
+        if len(r["trace"]) != len(r["records"]):
+            yield ("iteration-without-training-backward", f"process {pi}: {len(r['records'])} completed iterations (scheduler "
+                   f"steps) but only {len(r['trace'])} back-propagated in training mode (events {r['events']}): the gradients "
+                   f"of the other batches are dropped", {"process": pi})
+            if r["latest"] >= 0:
+                latest = r["latest"]
+            continue
         its = [t for t, _, _ in r["trace"]]
         end = kill if 0 <= kill < total and kill >= want_start else total
         if r["start"] != want_start or its != list(range(want_start, max(want_start, end))):
